@@ -106,6 +106,9 @@ CT{k} = {ct}
 class H{k}:
     inner: {ct}
 @dataclass
+class HD{k}:
+    inner: {ct} = field(default_factory=lambda: C{k}(1))   # the default appears, serialized, in the schema
+@dataclass
 class F{k}:
     z: int
     inner: {ct} = field(metadata=flatten)
@@ -243,6 +246,12 @@ def check_config(mod, k, cfg, st: infra.Stats):
                         viol("definitions_schema." + side + ".properties", f"{dname}: {sorted(d.get('properties', {}))}")
                     if dname == f"H{k}" and inner_ext not in d.get("properties", {}):
                         viol("definitions_schema." + side + ".properties", f"{dname}: {sorted(d.get('properties', {}))}")
+            # a default value written in a schema is a serialized value: the same names as serialize() gives
+            HD = getattr(mod, f"HD{k}")
+            for sname, fn in (("deserialization_schema", deserialization_schema),):  # serialization schemas carry no default
+                dflt = fn(HD, **kw).get("properties", {}).get(inner_ext, {}).get("default")
+                if not isinstance(dflt, dict) or set(dflt) != {ext, other_ext}:
+                    viol(sname + ".default", f"default of the field holding the class: {dflt!r}")
             # dependent_required is enforced on, and reported with, the external names
             D = getattr(mod, f"D{k}")
             dep_ext = DYN[dyn](CLASS_AL[cal]("dep") if cal else "dep")
